@@ -29,7 +29,7 @@ def hubPaginate (rc : RawCfg) (h : Hub) (ch : Nat) (limit : Int) (asc : Bool) :
     | _ => none
 
 /-- stored publication of an element's key. -/
-def pubOf (c : Chan) (e : Elem) : Option Pub := (aget c.state e.2).map (·.pub)
+def statePubOf (c : Chan) (e : Elem) : Option Pub := (aget c.state e.2).map (·.pub)
 
 theorem elems_map_snd (c : Chan) : c.elems.map (·.2) = akeys c.state := by
   simp [Chan.elems, akeys, List.map_map, Function.comp_def]
@@ -52,11 +52,11 @@ theorem elems_unordered_score (c : Chan) (hu : c.ordered = false) : ∀ e ∈ c.
   obtain ⟨kv, _, rfl⟩ := he
   simp [hu]
 
-theorem pubOf_isSome_of_mem (c : Chan) : ∀ e ∈ c.elems, (pubOf c e).isSome = true := by
+theorem statePubOf_isSome_of_mem (c : Chan) : ∀ e ∈ c.elems, (statePubOf c e).isSome = true := by
   intro e he
   simp only [Chan.elems, List.mem_map] at he
   obtain ⟨kv, hkv, rfl⟩ := he
-  simp only [pubOf, Option.isSome_map]
+  simp only [statePubOf, Option.isSome_map]
   cases hget : aget c.state kv.1 with
   | some v => rfl
   | none => exact absurd hkv ((aget_none_iff.mp hget) kv.2)
@@ -111,7 +111,7 @@ theorem getState_page (rc : RawCfg) (cfg : Cfg) (h : Hub) (ch : Nat) (c : Chan) 
     (hres : resolve rc = some cfg) (hc : aget h.chans ch = some c) (hl : limit ≠ 0)
     (cu : Option Elem) (hcu : ∀ e, cu = some e → c.ordered = false → e.1 = 0) :
     getState rc h ch { cursor := cu.map (Cursor.ofElem c.ordered), limit := limit, asc := asc }
-      = (h, ⟨.state ((getPage (elemLt (c.dir asc)) (isort (elemLt (c.dir asc)) c.elems) cu limit).items.filterMap (pubOf c))
+      = (h, ⟨.state ((getPage (elemLt (c.dir asc)) (isort (elemLt (c.dir asc)) c.elems) cu limit).items.filterMap (statePubOf c))
                 c.stream.pos
                 (getPage (elemLt (c.dir asc)) (isort (elemLt (c.dir asc)) c.elems) cu limit).cursor c.ordered, []⟩) := by
   have hcur : Option.map (fun cu : Cursor => if c.ordered then (cu.score, cu.skey) else ((0 : Int), cu.key))
@@ -128,7 +128,7 @@ theorem getState_page (rc : RawCfg) (cfg : Cfg) (h : Hub) (ch : Nat) (c : Chan) 
         subst this
         simp [Cursor.ofElem]
   unfold getState
-  simp only [hres, hc, hcur, hl, if_false, bne_self_eq_false, Bool.false_eq_true, pubOf]
+  simp only [hres, hc, hcur, hl, if_false, bne_self_eq_false, Bool.false_eq_true, statePubOf]
   rfl
 
 /-- the hub loop is the generic loop, publication by publication. -/
@@ -137,7 +137,7 @@ theorem hubPaginate_eq (rc : RawCfg) (cfg : Cfg) (h : Hub) (ch : Nat) (c : Chan)
     ∀ (fuel : Nat) (cu : Option Elem) (acc : List Pub),
       (∀ e, cu = some e → c.ordered = false → e.1 = 0) →
       hubPaginate rc h ch limit asc fuel (cu.map (Cursor.ofElem c.ordered)) acc
-        = some (acc ++ (paginate (elemLt (c.dir asc)) (isort (elemLt (c.dir asc)) c.elems) limit fuel cu []).1.filterMap (pubOf c),
+        = some (acc ++ (paginate (elemLt (c.dir asc)) (isort (elemLt (c.dir asc)) c.elems) limit fuel cu []).1.filterMap (statePubOf c),
                 (paginate (elemLt (c.dir asc)) (isort (elemLt (c.dir asc)) c.elems) limit fuel cu []).2)
   | 0, cu, acc, _ => by simp [hubPaginate, paginate]
   | fuel + 1, cu, acc, hcu => by
@@ -151,7 +151,7 @@ theorem hubPaginate_eq (rc : RawCfg) (cfg : Cfg) (h : Hub) (ch : Nat) (c : Chan)
       have hmem := getPage_cursor_mem _ _ cu limit e hcur
       have hmem' : e ∈ c.elems := (isort_perm _ _).mem_iff.mp hmem
       have ih := hubPaginate_eq rc cfg h ch c limit asc hres hc hl fuel (some e)
-        (acc ++ (getPage (elemLt (c.dir asc)) (isort (elemLt (c.dir asc)) c.elems) cu limit).items.filterMap (pubOf c))
+        (acc ++ (getPage (elemLt (c.dir asc)) (isort (elemLt (c.dir asc)) c.elems) cu limit).items.filterMap (statePubOf c))
         (by intro e' he' hu; cases he'; exact elems_unordered_score c hu e hmem')
       simp only [Option.map_some] at ih
       rw [ih, paginate_acc _ _ _ fuel (some e) ((getPage _ _ cu limit).items)]
@@ -164,8 +164,8 @@ publications in the channel's sort order — one per key. -/
 theorem hub_pages_concat (rc : RawCfg) (cfg : Cfg) (h : Hub) (ch : Nat) (c : Chan) (limit : Int) (asc : Bool)
     (hres : resolve rc = some cfg) (hc : aget h.chans ch = some c) (hnd : (akeys c.state).Nodup) (hl : 0 < limit) :
     hubPaginate rc h ch limit asc (c.state.length + 1) none []
-      = some ((isort (elemLt (c.dir asc)) c.elems).filterMap (pubOf c), true) ∧
-    ((isort (elemLt (c.dir asc)) c.elems).filterMap (pubOf c)).length = c.state.length ∧
+      = some ((isort (elemLt (c.dir asc)) c.elems).filterMap (statePubOf c), true) ∧
+    ((isort (elemLt (c.dir asc)) c.elems).filterMap (statePubOf c)).length = c.state.length ∧
     (isort (elemLt (c.dir asc)) c.elems).Perm c.elems ∧
     (isort (elemLt (c.dir asc)) c.elems).Pairwise (fun a b => elemLt (c.dir asc) a b = true) := by
   have hnd' := elems_nodup c hnd
@@ -178,7 +178,7 @@ theorem hub_pages_concat (rc : RawCfg) (cfg : Cfg) (h : Hub) (ch : Nat) (c : Cha
   refine ⟨this, ?_, isort_perm _ _, isort_sorted (elemLt_strictTotal _) _ hnd'⟩
   rw [filterMap_length_of_isSome, isort_length, elems_length]
   intro e he
-  exact pubOf_isSome_of_mem c e ((isort_perm _ _).mem_iff.mp he)
+  exact statePubOf_isSome_of_mem c e ((isort_perm _ _).mem_iff.mp he)
 
 /-- **single_key_read**: a `ReadState` with `Key` set returns exactly the stored entry of that key (or nothing),
 whatever `Limit`, `Cursor` and direction are, with the channel's current position. -/
